@@ -1,7 +1,626 @@
 import Driver.Common
-open Lean Drv
+import NriModel.Wire
+import NriModel.Extracted.ApiSchema
+/-!
+Driver for C12. Two kinds of input line:
+
+* `{"op":"encode","in":{msg,val,…}}` (sent by the harness itself before it runs the Go
+  decoders): answers with the bytes of the Lean encoder for `val` and of three variants
+  every conforming decoder must accept (fields in reverse order at every level, every varint
+  padded to a non-minimal form, every singular message field split into two records that
+  have to be merged, the records of different fields interleaved so that the elements of a
+  repeated field or map are not contiguous) in `model.variants`.
+* a case line `{"id","in":{msg,val,alloc_empty,stream,note},"obs":{…}}`: judged.
+
+agree = the Lean codec and the Go codecs compute the same thing on the same input:
+  Lean `encode val` = the bytes of `proto.Marshal` (deterministic) exactly, and = the bytes
+  of `MarshalVT` up to the order of map entries (checked as: `encode (decode vt) = vt` and
+  `decode vt` ≈ val); Lean `size` = `SizeVT` = `proto.Size`; Lean `decode` of each byte
+  string = what each Go decoder returned for it (or both reject).
+spec  = the property, evaluated on the Go observations alone: neither encoder fails, `SizeVT`
+  is the length of what `MarshalVT` wrote, each encoder's bytes decode with the *other*
+  decoder (and with its own) to a message `proto.Equal` to the original whose dump is the
+  input value (absent vs present-empty included) with no unknown bytes left over, and the
+  Lean encoder's bytes and their variants decode likewise with both Go decoders.
+-/
+open Lean Drv Nri Nri.Wire Nri.Wire.Extracted
+
 namespace Drv.C12
-/-- placeholder until the property's driver is written -/
-def judge (_ : Json) : Except String Verdict := .error "C12 driver not implemented"
+
+/-! hex -/
+
+def hexDigit (c : Char) : Option Nat :=
+  if '0' ≤ c ∧ c ≤ '9' then some (c.toNat - 48)
+  else if 'a' ≤ c ∧ c ≤ 'f' then some (c.toNat - 87)
+  else if 'A' ≤ c ∧ c ≤ 'F' then some (c.toNat - 55)
+  else none
+
+def unhexAux : List Char → List Nat → Except String Bytes
+  | [], acc => pure acc.reverse
+  | [_], _ => throw "odd hex length"
+  | a :: b :: r, acc =>
+    match hexDigit a, hexDigit b with
+    | some x, some y => unhexAux r ((16 * x + y) :: acc)
+    | _, _ => throw "bad hex digit"
+
+def unhex (s : String) : Except String Bytes := unhexAux s.toList []
+
+def hexChar (n : Nat) : Char := if n < 10 then Char.ofNat (48 + n) else Char.ofNat (87 + n)
+
+def tohex (bs : Bytes) : String :=
+  String.ofList (bs.foldr (fun b acc => hexChar (b / 16 % 16) :: hexChar (b % 16) :: acc) [])
+
+def showBytes (bs : Bytes) : String :=
+  if bs.all (fun b => 32 ≤ b ∧ b < 127) then "\"" ++ String.ofList (bs.map Char.ofNat) ++ "\""
+  else "x" ++ tohex bs
+
+/-! values from / to JSON (type-directed; see harness/c12/value.go) -/
+
+def jsonStr (j : Json) : Except String String :=
+  match j with
+  | Json.str s => pure s
+  | _ => throw "expected a JSON string"
+
+mutual
+partial def parseVal (S : Schema) (ty : FType) (j : Json) : Except String Val := do
+  match ty with
+  | .scalar _ =>
+    let s ← jsonStr j
+    match s.toInt? with
+    | some i => pure (.int i)
+    | none => throw s!"bad integer {s}"
+  | .string => do
+    let s ← jsonStr j
+    pure (.str (← unhex s))
+  | .msg m =>
+    match j with
+    | Json.null => pure .none
+    | _ => do pure (.msg (← parseMsg S m j))
+  | .repString =>
+    match j with
+    | Json.arr a => do
+      let l ← a.toList.mapM fun x => do unhex (← jsonStr x)
+      pure (.strs l)
+    | Json.null => pure (.strs [])
+    | _ => throw "expected a list of strings"
+  | .repMsg m =>
+    match j with
+    | Json.arr a => do
+      let l ← a.toList.mapM fun x => match x with
+        | Json.null => pure Val.none
+        | _ => do pure (Val.msg (← parseMsg S m x))
+      pure (.list l)
+    | Json.null => pure (.list [])
+    | _ => throw "expected a list of messages"
+  | .mapSS =>
+    match j with
+    | Json.arr a => do
+      let l ← a.toList.mapM fun x => match x with
+        | Json.arr #[k, v] => do pure ((← unhex (← jsonStr k)), (← unhex (← jsonStr v)))
+        | _ => throw "expected [key,value]"
+      pure (.smap l)
+    | Json.null => pure (.smap [])
+    | _ => throw "expected a list of map entries"
+  | .unsupported => throw "unsupported field kind"
+partial def parseMsg (S : Schema) (m : Nat) (j : Json) : Except String (List Val) := do
+  match j with
+  | Json.arr a =>
+    let fs := S.fieldsOf m
+    if a.size ≠ fs.length then throw s!"message {m}: {a.size} values for {fs.length} fields"
+    (fs.zip a.toList).mapM fun (f, x) => parseVal S f.ty x
+  | _ => throw "expected a message value (array)"
+end
+
+/-- lexicographic order on byte strings (Go's string order, which `Deterministic` uses) -/
+def bytesLt : Bytes → Bytes → Bool
+  | [], [] => false
+  | [], _ :: _ => true
+  | _ :: _, [] => false
+  | a :: r, b :: s => if a < b then true else if b < a then false else bytesLt r s
+
+def insertSorted (e : Bytes × Bytes) : List (Bytes × Bytes) → List (Bytes × Bytes)
+  | [] => [e]
+  | x :: r => if bytesLt e.1 x.1 then e :: x :: r else x :: insertSorted e r
+
+def sortEntries (l : List (Bytes × Bytes)) : List (Bytes × Bytes) := l.foldr insertSorted []
+
+mutual
+/-- maps sorted by key -/
+partial def canonVal : Val → Val
+  | .msg fs => .msg (fs.map canonVal)
+  | .list l => .list (l.map canonVal)
+  | .smap l => .smap (sortEntries l)
+  | v => v
+end
+
+def canonMsg (v : List Val) : List Val := v.map canonVal
+
+partial def valBeq : Val → Val → Bool
+  | .int a, .int b => a == b
+  | .str a, .str b => a == b
+  | .none, .none => true
+  | .msg a, .msg b => a.length == b.length && (a.zip b).all fun (x, y) => valBeq x y
+  | .strs a, .strs b => a == b
+  | .list a, .list b => a.length == b.length && (a.zip b).all fun (x, y) => valBeq x y
+  | .smap a, .smap b => a == b
+  | _, _ => false
+
+def msgBeq (a b : List Val) : Bool := valBeq (.msg a) (.msg b)
+
+partial def showVal : Val → String
+  | .int i => toString i
+  | .str b => showBytes b
+  | .none => "nil"
+  | .msg fs => "{" ++ ", ".intercalate (fs.map showVal) ++ "}"
+  | .strs l => "[" ++ ", ".intercalate (l.map showBytes) ++ "]"
+  | .list l => "[" ++ ", ".intercalate (l.map showVal) ++ "]"
+  | .smap l => "map[" ++ ", ".intercalate (l.map fun (k, v) => showBytes k ++ ":" ++ showBytes v) ++ "]"
+
+def clip (s : String) (n : Nat := 160) : String :=
+  if s.length ≤ n then s else String.ofList (s.toList.take n) ++ "…"
+
+mutual
+/-- path and content of the first difference between two message values -/
+partial def diffMsg (S : Schema) (m : Nat) (pfx : String) (a b : List Val) : Option String :=
+  let fs := S.fieldsOf m
+  if a.length ≠ fs.length ∨ b.length ≠ fs.length then some s!"{pfx}: field counts {a.length}/{b.length}/{fs.length}"
+  else (fs.zip (a.zip b)).findSome? fun (f, x, y) => diffVal S f (pfx ++ "." ++ f.name) x y
+partial def diffVal (S : Schema) (f : Field) (path : String) (x y : Val) : Option String :=
+  if valBeq x y then none else
+  match f.ty, x, y with
+  | .msg m, .msg a, .msg b => diffMsg S m path a b
+  | .repMsg m, .list a, .list b =>
+    if a.length ≠ b.length then some s!"{path}: {a.length} vs {b.length} elements"
+    else ((List.range a.length).zip (a.zip b)).findSome? fun (i, p, q) =>
+      match p, q with
+      | .msg u, .msg w => diffMsg S m s!"{path}[{i}]" u w
+      | _, _ => if valBeq p q then none else some s!"{path}[{i}]: {clip (showVal p)} vs {clip (showVal q)}"
+  | _, _, _ => some s!"{path}: {clip (showVal x)} vs {clip (showVal y)}"
+end
+
+/-! the variants of the encoding that every decoder has to accept -/
+
+structure VOpts where
+  rev : Bool := false
+  pad : Bool := false
+  split : Bool := false
+  inter : Bool := false
+
+/-- a non-minimal varint: continuation bit on the last byte, then a zero byte -/
+def padVarint (n : Nat) : Bytes :=
+  let e := encodeVarint n
+  if e.length < 10 then
+    match e.reverse with
+    | last :: front => front.reverse ++ [last + 128, 0]
+    | [] => e
+  else e
+
+def vVarint (o : VOpts) (n : Nat) : Bytes := if o.pad then padVarint n else encodeVarint n
+def vLenDelim (o : VOpts) (num : Nat) (p : Bytes) : Bytes :=
+  vVarint o (num * 8 + 2) ++ vVarint o p.length ++ p
+
+/-- keep the fields at even (`par = 0`) or odd positions, reset the others to the default -/
+def halfOf (fs : List Field) (vs : List Val) (par : Nat) : List Val :=
+  ((List.range vs.length).zip (fs.zip vs)).map fun (i, f, v) => if i % 2 = par then v else f.ty.default
+
+/-- one record from each field in turn, until all are used up -/
+partial def roundRobin (parts : List (List Bytes)) : List Bytes :=
+  let parts := parts.filter (· ≠ [])
+  if parts.isEmpty then [] else
+    parts.filterMap List.head? ++ roundRobin (parts.map List.tail)
+
+mutual
+/-- the records of one field -/
+partial def vField (S : Schema) (o : VOpts) (f : Field) (v : Val) : List Bytes :=
+  match f.ty, v with
+  | .scalar k, .int i => if i = 0 then [] else [vVarint o (f.num * 8 + 0) ++ vVarint o (toU64 k i)]
+  | .string, .str bs => if bs = [] then [] else [vLenDelim o f.num bs]
+  | .msg m, .msg fs =>
+    if o.split then
+      [vLenDelim o f.num (vFields S o (S.fieldsOf m) (halfOf (S.fieldsOf m) fs 0)),
+       vLenDelim o f.num (vFields S o (S.fieldsOf m) (halfOf (S.fieldsOf m) fs 1))]
+    else [vLenDelim o f.num (vFields S o (S.fieldsOf m) fs)]
+  | .repString, .strs l => l.map (vLenDelim o f.num)
+  | .repMsg m, .list l =>
+    l.map fun e => match e with
+      | .msg fs => vLenDelim o f.num (vFields S o (S.fieldsOf m) fs)
+      | _ => vLenDelim o f.num []
+  | .mapSS, .smap l =>
+    let es := if o.rev then l.reverse else l
+    es.map fun (k, v) =>
+      let kk := vLenDelim o 1 k
+      let vv := vLenDelim o 2 v
+      vLenDelim o f.num (if o.rev then vv ++ kk else kk ++ vv)
+  | _, _ => []
+partial def vFields (S : Schema) (o : VOpts) (fs : List Field) (vs : List Val) : Bytes :=
+  let parts := (fs.zip vs).map fun (f, v) => vField S o f v
+  if o.rev then parts.reverse.flatten.flatten
+  else if o.inter then (roundRobin parts).flatten
+  else parts.flatten.flatten
+end
+
+def variants (S : Schema) (m : Nat) (v : List Val) (wt : Bool) : List (String × Bytes) :=
+  let canon := ("canon", encode S m v)
+  if !wt then [canon] else
+  [canon,
+   ("reversed", vFields S { rev := true } (S.fieldsOf m) v),
+   ("padded", vFields S { pad := true } (S.fieldsOf m) v),
+   ("split", vFields S { split := true } (S.fieldsOf m) v),
+   ("interleaved", vFields S { inter := true } (S.fieldsOf m) v)]
+
+/-! judging -/
+
+def findMsg (S : Schema) (name : String) : Option Nat :=
+  S.findIdx? (·.name == name)
+
+structure Dec where
+  ok : Bool
+  err : String
+  equal : Bool
+  unknown : Nat
+  same : Bool
+  dump : Json
+
+def getDec (obs : Json) (k : String) : Except String Dec := do
+  let j ← getObj obs k
+  pure { ok := getBoolD j "ok", err := getStrD j "err", equal := getBoolD j "equal",
+         unknown := getNatD j "unknown", same := getBoolD j "same", dump := (j.getObjVal? "dump").toOption.getD Json.null }
+
+/-- cover tags describing what the value exercises -/
+partial def tagsOf (S : Schema) (f : Field) (v : Val) (depth : Nat) : List String :=
+  match f.ty, v with
+  | .scalar k, .int i =>
+    if i = 0 then [] else
+      let kn := match k with
+        | .int32 => "int32" | .int64 => "int64" | .uint32 => "uint32" | .uint64 => "uint64"
+        | .bool => "bool" | .enum => "enum"
+      [s!"set:{kn}", s!"set:{kn}:{if i < 0 then "neg" else "pos"}",
+       s!"varint-bytes:{(encodeVarint (toU64 k i)).length}"]
+  | .string, .str b =>
+    if b = [] then [] else ["set:string", s!"len-prefix-bytes:{(encodeVarint b.length).length}"] ++
+      (if b.any (· ≥ 128) then ["string:non-ascii"] else [])
+  | .msg _, .none => ["submsg:absent"]
+  | .msg m, .msg fs =>
+    let inner := ((S.fieldsOf m).zip fs).flatMap fun (g, x) => tagsOf S g x (depth + 1)
+    let body := encode S m fs
+    (if body = [] then ["submsg:present-empty"] else ["submsg:present", s!"len-prefix-bytes:{(encodeVarint body.length).length}"]) ++
+      [s!"depth:{depth + 1}"] ++ inner
+  | .repString, .strs l =>
+    if l = [] then [] else [s!"repstring:{if l.length = 1 then "1" else "n"}"] ++
+      (if l.any (· = []) then ["repstring:empty-element"] else [])
+  | .repMsg m, .list l =>
+    if l = [] then [] else
+      [s!"repmsg:{if l.length = 1 then "1" else "n"}", s!"depth:{depth + 1}"] ++
+      (if l.any (fun e => match e with | .msg fs => encode S m fs = [] | _ => false) then ["repmsg:empty-element"] else []) ++
+      (l.flatMap fun e => match e with
+        | .msg fs => ((S.fieldsOf m).zip fs).flatMap fun (g, x) => tagsOf S g x (depth + 1)
+        | _ => ["repmsg:nil-element"])
+  | .mapSS, .smap l =>
+    if l = [] then [] else [s!"map:{if l.length = 1 then "1" else "n"}"] ++
+      (if l.any (fun e => e.1 = []) then ["map:empty-key"] else []) ++
+      (if l.any (fun e => e.2 = []) then ["map:empty-value"] else [])
+  | _, _ => ["ill-typed"]
+
+def dedup (l : List String) : List String :=
+  l.foldl (fun acc x => if acc.contains x then acc else acc ++ [x]) []
+
+/-- the Lean decoder against one Go decoding of the same bytes -/
+def sameDecode (S : Schema) (m : Nat) (bytes : Bytes) (d : Dec) (inVal : List Val) (what : String) :
+    Except String (Option String) := do
+  match decode S m bytes with
+  | none =>
+    if d.ok then pure (some s!"{what}: the Go decoder accepts bytes the Lean decoder rejects")
+    else pure none
+  | some lv =>
+    if !d.ok then pure (some s!"{what}: the Go decoder rejects ({d.err}) bytes the Lean decoder accepts")
+    else
+      let gv ← match d.dump with
+        | Json.null => if d.same then pure inVal else throw s!"{what}: no dump"
+        | j => parseMsg S m j
+      if msgBeq (canonMsg lv) (canonMsg gv) then pure none
+      else pure (some s!"{what}: Lean decode ≠ Go decode at {(diffMsg S m "" (canonMsg lv) (canonMsg gv)).getD "?"}")
+
+def judgeEncode (S : Schema) (inp : Json) : Except String Verdict := do
+  if getStrD inp "stream" == "raw" || getStrD inp "stream" == "glue" || getStrD inp "stream" == "concat" then
+    return { model := Json.mkObj [("variants", Json.arr #[])] }
+  let name ← getStr inp "msg"
+  let some m := findMsg S name | throw s!"unknown message {name}"
+  let v ← parseMsg S m (← getObj inp "val")
+  let wt := WellTyped S m v
+  let vs := variants S m v wt
+  pure { model := Json.mkObj [("variants", Json.arr (vs.map fun (n, b) =>
+            Json.mkObj [("name", n), ("hex", tohex b)]).toArray)] }
+
+def judgeCase (S : Schema) (inp obs : Json) : Except String Verdict := do
+  let name ← getStr inp "msg"
+  let stream := getStrD inp "stream"
+  let note := getStrD inp "note"
+  let some m := findMsg S name | throw s!"unknown message {name}"
+  let inValJ ← getObj inp "val"
+  let v ← parseMsg S m inValJ
+  let wt := WellTyped S m v
+  let cv := canonMsg v
+  -- observations
+  let pbHex := getStrD obs "pb"
+  let vtHex := getStrD obs "vt"
+  let pbErr := getStrD obs "pb_err"
+  let vtErr := getStrD obs "vt_err"
+  let sizeVT := getIntD obs "size_vt" (-1)
+  let pbSize := getIntD obs "pb_size" (-1)
+  let hasVT := getBoolD obs "has_vt"
+  let pb ← unhex pbHex
+  let vt ← unhex vtHex
+  let pb2vt ← getDec obs "pb2vt"
+  let vt2pb ← getDec obs "vt2pb"
+  let pb2pb ← getDec obs "pb2pb"
+  let vt2vt ← getDec obs "vt2vt"
+  let leanErr := getStrD obs "lean_err"
+  let leanObs ← getArr obs "lean"
+  -- model
+  let enc := encode S m cv
+  let sz := size S m cv
+  let vs := variants S m v wt
+  -- ---------- spec: on the Go observations alone ----------
+  let decOk (d : Dec) : Bool := d.ok && d.equal && d.unknown == 0 && d.same
+  let mut specFails : List (String × String) := []
+  let buildErr := getStrD obs "build_err"
+  if buildErr != "" then
+    specFails := specFails ++ [("build", s!"the message cannot be constructed through protobuf reflection: {buildErr}")]
+  if !hasVT && buildErr == "" then specFails := specFails ++ [("no-vt-codec", "the message type has no MarshalVT/UnmarshalVT/SizeVT")]
+  if pbErr != "" && buildErr == "" then specFails := specFails ++ [("encoder-error:proto", s!"proto.Marshal failed ({pbErr})")]
+  if vtErr != "" && buildErr == "" then specFails := specFails ++ [("encoder-error:vt", s!"MarshalVT failed ({vtErr})")]
+  if vtErr == "" && sizeVT != (vt.length : Int) then
+    specFails := specFails ++ [("size", s!"SizeVT = {sizeVT} but MarshalVT wrote {vt.length} bytes")]
+  for (k, d, txt) in [("cross:pb->vt", pb2vt, "UnmarshalVT(proto.Marshal(m))"),
+                      ("cross:vt->pb", vt2pb, "proto.Unmarshal(MarshalVT(m))"),
+                      ("self:pb->pb", pb2pb, "proto.Unmarshal(proto.Marshal(m))"),
+                      ("self:vt->vt", vt2vt, "UnmarshalVT(MarshalVT(m))")] do
+    if d.err == "no-input" then continue
+    if !decOk d then
+      let what :=
+        if !d.ok then s!"fails ({d.err})"
+        else if d.unknown != 0 then s!"leaves {d.unknown} unknown bytes"
+        else match parseMsg S m d.dump with
+          | .ok gv => s!"≠ m at {(diffMsg S m "" cv (canonMsg gv)).getD (if d.equal then "?" else "proto.Equal")}"
+          | .error e => s!"undumpable ({e})"
+      specFails := specFails ++ [(k, s!"{txt} {what}")]
+  let mut leanSeen : List (String × String) := []
+  for lj in leanObs do
+    let vn := getStrD lj "name"
+    leanSeen := leanSeen ++ [(vn, getStrD lj "hex")]
+    for (dn, txt) in [("pb", "proto.Unmarshal"), ("vt", "UnmarshalVT")] do
+      let d ← getDec lj dn
+      if !decOk d then
+        let what :=
+          if !d.ok then s!"fails ({d.err})"
+          else if d.unknown != 0 then s!"leaves {d.unknown} unknown bytes"
+          else match d.dump with
+            | Json.null => "is not proto.Equal to m"
+            | dj => match parseMsg S m dj with
+              | .ok gv => s!"≠ m at {(diffMsg S m "" cv (canonMsg gv)).getD "proto.Equal"}"
+              | .error e => s!"undumpable ({e})"
+        specFails := specFails ++ [(s!"lean-bytes:{vn}:{dn}", s!"{txt}(Lean {vn} encoding of m) {what}")]
+  let spec := specFails.isEmpty
+  -- ---------- agree: Lean codec = Go codecs on the same inputs ----------
+  let mut dis : List String := []
+  if pbErr == "" then
+    if enc != pb then dis := dis ++ [s!"Lean encode ≠ proto.Marshal bytes ({clip (tohex enc) 80} vs {clip pbHex 80})"]
+    if pbSize != (sz : Int) then dis := dis ++ [s!"Lean size {sz} ≠ proto.Size {pbSize}"]
+    for (d, w) in [(pb2vt, "proto bytes/UnmarshalVT"), (pb2pb, "proto bytes/proto.Unmarshal")] do
+      if let some e ← sameDecode S m pb d v w then dis := dis ++ [e]
+  else if wt then dis := dis ++ [s!"proto.Marshal rejects ({pbErr}) a value the model holds well-typed"]
+  if vtErr == "" then
+    if sizeVT != (sz : Int) then dis := dis ++ [s!"Lean size {sz} ≠ SizeVT {sizeVT}"]
+    match decode S m vt with
+    | some lv =>
+      -- MarshalVT iterates Go maps in random order: equal up to map-entry order, and exactly
+      -- the Lean encoding of what it decodes to
+      if encode S m lv != vt then dis := dis ++ ["MarshalVT bytes are not the Lean encoding of the value they decode to"]
+      if wt && !msgBeq (canonMsg lv) cv then
+        dis := dis ++ [s!"Lean decode(MarshalVT bytes) ≠ value at {(diffMsg S m "" (canonMsg lv) cv).getD "?"}"]
+    | none =>
+      if wt then dis := dis ++ ["Lean decode rejects the MarshalVT bytes"]
+      else if enc != vt then
+        -- ill-typed value (excluded stream: at most one entry per map): byte-exact comparison
+        dis := dis ++ [s!"Lean encode ≠ MarshalVT bytes on an ill-typed value ({clip (tohex enc) 80} vs {clip vtHex 80})"]
+    -- vtproto does not validate UTF-8: its own decoder is compared only on valid input
+    for (d, w, strict) in [(vt2pb, "vt bytes/proto.Unmarshal", true), (vt2vt, "vt bytes/UnmarshalVT", false)] do
+      if strict || wt then
+        if let some e ← sameDecode S m vt d v w then dis := dis ++ [e]
+  else if wt then dis := dis ++ [s!"MarshalVT fails ({vtErr}) on a value the model holds well-typed"]
+  -- the Lean direction: the harness must have used exactly the bytes the model produces
+  if leanErr != "" then dis := dis ++ [s!"Lean→Go direction not run: {leanErr}"]
+  else
+    let want := vs.map fun (n, b) => (n, tohex b)
+    if want != leanSeen then dis := dis ++ ["the Lean encodings fed to the Go decoders are not the ones the model produces"]
+    for (n, b) in vs do
+      match decode S m b with
+      | some lv =>
+        if wt && !msgBeq (canonMsg lv) cv then dis := dis ++ [s!"Lean decode of its own {n} encoding ≠ value"]
+      | none => if wt then dis := dis ++ [s!"Lean decode rejects its own {n} encoding"]
+  let agree := dis.isEmpty
+  -- ---------- classification ----------
+  let ftags := ((S.fieldsOf m).zip v).flatMap fun (f, x) =>
+    let ts := tagsOf S f x 0
+    if ts.isEmpty || ts == ["submsg:absent"] then ts else s!"field:{name}.{f.name}" :: ts
+  let excl := !wt
+  let exclSig :=
+    if !excl then ""
+    else if pbErr == "invalid-utf8" then
+      s!"invalid-utf8: proto.Marshal={pbErr} MarshalVT={if vtErr == "" then "ok" else vtErr} proto.Unmarshal(vt)={if vt2pb.ok then "ok" else vt2pb.err} UnmarshalVT(vt)={if vt2vt.ok then "ok" else vt2vt.err}"
+    else s!"nil-element-or-other-ill-typed: proto.Marshal={if pbErr == "" then "ok" else pbErr} MarshalVT={if vtErr == "" then "ok" else vtErr} roundtrip-equal pb={pb2pb.equal} vt={vt2vt.equal}"
+  let cover := dedup ([s!"stream:{stream}", s!"msg:{name}", if excl then "domain:excluded" else "domain:in",
+      s!"size-class:{if sz = 0 then "0" else if sz < 128 then "<128" else if sz < 16384 then "<16K" else ">=16K"}"]
+      ++ (if getBoolD inp "alloc_empty" then ["alloc-empty"] else [])
+      ++ (vs.filterMap fun (n, b) => if n != "canon" && b != enc then some s!"variant-differs:{n}" else none)
+      ++ ftags)
+  let why :=
+    match specFails, dis with
+    | (_, w) :: _, _ => s!"{name} [{note}]: {w}"
+    | [], w :: _ => s!"{name} [{note}]: {w}"
+    | [], [] => ""
+  let sig := if excl then exclSig else match specFails with
+    | (k, _) :: _ => s!"C12:{k}"
+    | [] => ""
+  pure { agree := agree, spec := spec, why := why, cover := cover,
+         nontrivial := wt && sz > 0, sig := sig, excluded := excl,
+         model := Json.mkObj [("size", sz), ("enc", clip (tohex enc) 200)] }
+
+/-- stream `raw`: bytes no encoder produces. Outside the domain; enforced: whenever the Lean
+    decoder accepts, both Go decoders accept and return the same value. Everything else is
+    recorded in the signature (evidence `excluded_points`). -/
+def judgeRaw (S : Schema) (inp obs : Json) : Except String Verdict := do
+  let name ← getStr inp "msg"
+  let note := getStrD inp "note"
+  let cls := String.ofList (note.toList.takeWhile (· != ':'))
+  let some m := findMsg S name | throw s!"unknown message {name}"
+  let raw ← unhex (← getStr inp "raw")
+  let pb ← getDec obs "pb"
+  let vt ← getDec obs "vt"
+  let lean := decode S m raw
+  let mut dis : List String := []
+  match lean with
+  | some lv =>
+    for (d, w) in [(pb, "proto.Unmarshal"), (vt, "UnmarshalVT")] do
+      if !d.ok then dis := dis ++ [s!"{w} rejects ({d.err}) bytes the Lean decoder accepts"]
+      else match parseMsg S m d.dump with
+        | .ok gv =>
+          if !msgBeq (canonMsg lv) (canonMsg gv) then
+            dis := dis ++ [s!"{w} ≠ Lean decode at {(diffMsg S m "" (canonMsg lv) (canonMsg gv)).getD "?"}"]
+        | .error e => dis := dis ++ [s!"{w}: undumpable ({e})"]
+  | none => pure ()
+  -- do the two Go decoders agree with each other? (recorded only)
+  let goSame : String :=
+    if pb.ok && vt.ok then (if pb.dump == vt.dump then "same-value" else "DIFFERENT-VALUES")
+    else if !pb.ok && !vt.ok then "both-reject" else "one-rejects"
+  let st (d : Dec) : String := if d.ok then (if d.unknown > 0 then "ok+unknown" else "ok") else d.err
+  let sig := s!"raw:{cls}: lean={if lean.isSome then "ok" else "reject"} proto.Unmarshal={st pb} UnmarshalVT={st vt} go:{goSame}"
+  pure { agree := dis.isEmpty, spec := true, excluded := true, sig := sig,
+         why := match dis with | w :: _ => s!"{name} [{note}]: {w}" | [] => "",
+         cover := ["stream:raw", s!"raw:{cls}", "domain:excluded", s!"msg:{name}"],
+         nontrivial := false, model := Json.mkObj [("lean_accepts", lean.isSome)] }
+
+/-- stream `glue`: the wazero host glue of api_host.pb.go driven with the mailbox module
+    (see harness/c12/glue.go). spec (on the observation): the call succeeds; request side —
+    the bytes that arrived inside the module have the length of `MarshalVT(value)` and decode
+    (proto.Unmarshal) to the value; response / host-function side — the message that comes
+    out of the wrapper / reaches the Log handler is the value. agree: the Lean decoder reads
+    the same bytes to the same value and they are its own encoding of it. -/
+def judgeGlue (S : Schema) (inp obs : Json) : Except String Verdict := do
+  let name ← getStr inp "msg"
+  let fn := getStrD inp "fn"
+  let side := getStrD inp "side"
+  let note := getStrD inp "note"
+  let some m := findMsg S name | throw s!"unknown message {name}"
+  let v ← parseMsg S m (← getObj inp "val")
+  let cv := canonMsg v
+  let ok := getBoolD obs "ok"
+  let err := getStrD obs "err"
+  let sentErr := getStrD obs "sent_err"
+  let sent ← unhex (getStrD obs "sent")
+  let got ← unhex (getStrD obs "got")
+  let dec ← getDec obs "dec"
+  let decOk := dec.ok && dec.equal && dec.same && dec.unknown == 0
+  let decWhy : String :=
+    if !dec.ok then s!"fails ({dec.err})"
+    else if dec.unknown != 0 then s!"carries {dec.unknown} unknown bytes"
+    else match parseMsg S m dec.dump with
+      | .ok gv => s!"≠ value at {(diffMsg S m "" cv (canonMsg gv)).getD "proto.Equal"}"
+      | .error _ => "is not proto.Equal to the value"
+  let mut fails : List String := []
+  if sentErr != "" then fails := fails ++ [s!"MarshalVT failed ({sentErr})"]
+  else if !ok then fails := fails ++ [s!"{fn}: {err}"]
+  else if side == "req" then
+    if got.length != sent.length then
+      fails := fails ++ [s!"{fn}: the module received {got.length} bytes, MarshalVT(request) has {sent.length}"]
+    if !decOk then fails := fails ++ [s!"{fn}: the request bytes inside the module: proto.Unmarshal {decWhy}"]
+  else if side == "resp" then
+    if !decOk then fails := fails ++ [s!"{fn}: the response returned by the wrapper {decWhy}"]
+  else
+    if getNatD obs "log_calls" != 1 then fails := fails ++ [s!"Log handler called {getNatD obs "log_calls"} times"]
+    if !decOk then fails := fails ++ [s!"the LogRequest handed to the Log handler {decWhy}"]
+  let mut dis : List String := []
+  if sentErr == "" then
+    let bytes := if side == "req" then got else sent
+    match decode S m bytes with
+    | some lv =>
+      if !msgBeq (canonMsg lv) cv then dis := dis ++ [s!"Lean decode of the transported bytes ≠ value at {(diffMsg S m "" (canonMsg lv) cv).getD "?"}"]
+      if encode S m lv != bytes then dis := dis ++ ["the transported bytes are not the Lean encoding of what they decode to"]
+    | none => if ok || side != "req" then dis := dis ++ ["Lean decode rejects the transported bytes"]
+  let sz := size S m cv
+  pure { agree := dis.isEmpty, spec := fails.isEmpty,
+         why := match fails, dis with
+           | w :: _, _ => s!"{name} [{note}]: {w}"
+           | [], w :: _ => s!"{name} [{note}]: {w}"
+           | [], [] => "",
+         sig := if fails.isEmpty then "" else s!"C12:glue:{side}:{fn}",
+         cover := ["stream:glue", s!"glue:{fn}:{side}", s!"msg:{name}", "domain:in",
+                   s!"size-class:{if sz = 0 then "0" else if sz < 128 then "<128" else if sz < 16384 then "<16K" else ">=16K"}"],
+         nontrivial := sz > 0, model := Json.mkObj [("size", sz)] }
+
+/-- stream `concat`: two values `a`, `b`; both Go decoders on the concatenation of their
+    encodings. spec (on the observation): both decoders succeed and return the same value,
+    which is `proto.Merge(a, b)`, also on the concatenated `MarshalVT` bytes. agree: the
+    Lean `merge a b` (what theorem `C12_concat` says the reference decoder returns, and what
+    it is re-checked to return here) is that value; the concatenated protobuf-go bytes are
+    the concatenated Lean encodings. -/
+def judgeConcat (S : Schema) (inp obs : Json) : Except String Verdict := do
+  let name ← getStr inp "msg"
+  let note := getStrD inp "note"
+  let some m := findMsg S name | throw s!"unknown message {name}"
+  let a ← parseMsg S m (← getObj inp "val")
+  let b ← parseMsg S m (← getObj inp "val2")
+  let err := getStrD obs "err"
+  let cat ← unhex (getStrD obs "cat_pb")
+  let pb ← getDec obs "pb"
+  let vt ← getDec obs "vt"
+  let vtvt ← getDec obs "vtvt"
+  let mergedJ := (obs.getObjVal? "merged").toOption.getD Json.null
+  let mut fails : List String := []
+  if err != "" then fails := fails ++ [s!"failed: {err}"]
+  else
+    for (d, w) in [(pb, "proto.Unmarshal(pb(a)++pb(b))"), (vt, "UnmarshalVT(pb(a)++pb(b))"),
+                   (vtvt, "UnmarshalVT(MarshalVT(a)++MarshalVT(b))")] do
+      if !d.ok then fails := fails ++ [s!"{w} fails ({d.err})"]
+      else if d.unknown != 0 then fails := fails ++ [s!"{w} leaves {d.unknown} unknown bytes"]
+      else if d.dump != mergedJ || !d.equal then
+        let loc := match parseMsg S m d.dump, parseMsg S m mergedJ with
+          | .ok x, .ok y => (diffMsg S m "" (canonMsg y) (canonMsg x)).getD "proto.Equal"
+          | _, _ => "?"
+        fails := fails ++ [s!"{w} ≠ proto.Merge(a, b) at {loc}"]
+  let mut dis : List String := []
+  let wt := WellTyped S m a && WellTyped S m b
+  if err == "" && wt then
+    let lm := merge S m a b
+    if encode S m (canonMsg a) ++ encode S m (canonMsg b) != cat then
+      dis := dis ++ ["the concatenated protobuf-go bytes are not the concatenated Lean encodings"]
+    match decode S m cat with
+    | some lv => if !msgBeq (canonMsg lv) (canonMsg lm) then dis := dis ++ ["Lean decode of the concatenation ≠ Lean merge (contradicts C12_concat)"]
+    | none => dis := dis ++ ["Lean decode rejects the concatenation"]
+    match parseMsg S m mergedJ with
+    | .ok gm =>
+      if !msgBeq (canonMsg lm) (canonMsg gm) then
+        dis := dis ++ [s!"Lean merge ≠ proto.Merge at {(diffMsg S m "" (canonMsg lm) (canonMsg gm)).getD "?"}"]
+    | .error e => dis := dis ++ [s!"proto.Merge result undumpable ({e})"]
+  pure { agree := dis.isEmpty, spec := fails.isEmpty,
+         why := match fails, dis with
+           | w :: _, _ => s!"{name} [{note}]: {w}"
+           | [], w :: _ => s!"{name} [{note}]: {w}"
+           | [], [] => "",
+         sig := if fails.isEmpty then "" else "C12:concat",
+         cover := ["stream:concat", s!"msg:{name}", "domain:in"],
+         nontrivial := wt && !(encode S m a).isEmpty && !(encode S m b).isEmpty,
+         model := Json.null }
+
+def judge (j : Json) : Except String Verdict := do
+  let inp ← getObj j "in"
+  if getStrD j "op" == "encode" then judgeEncode apiSchema inp
+  else
+    let obs ← getObj j "obs"
+    if getStrD inp "stream" == "raw" then judgeRaw apiSchema inp obs
+    else if getStrD inp "stream" == "glue" then judgeGlue apiSchema inp obs
+    else if getStrD inp "stream" == "concat" then judgeConcat apiSchema inp obs
+    else judgeCase apiSchema inp obs
+
 def main : IO UInt32 := runLines judge
 end Drv.C12
